@@ -37,7 +37,7 @@ def run(ctx):
         ctx.absorb(it)
         return
     L = outer[0]
-    base, pat, val, lv = r.args
+    base, pat, val, lv = r.args[:4]
     # R20.1 start value
     if pat != lv:
         ctx.unsure("R20.1", "integrate[start value]", "loop does not store at its own index", L.loc, derived=pat)
